@@ -37,6 +37,14 @@ def layer_values(tier, lookalikes=False, max_len=None):
             for combo in itertools.product(atoms, repeat=n):
                 yield {"layer": "V", "spec": docs.simple_doc(P("p", combo, dtype)),
                        "tags": {"dtype": dtype, "atoms": [repr(a) for a in combo], "n_values": n}}
+    # long lists: positions with two digits (text order of indices differs from numeric order)
+    longs = {"int": [7, 3, 11, 0, 5, 9, 2, 10, 8, 1, 6, 4], "string": ["v%d" % i for i in (7, 3, 11, 0, 5, 9, 2, 10, 8, 1, 6, 4)],
+             "float": [i + 0.5 for i in (7, 3, 11, 0, 5, 9, 2, 10, 8, 1, 6, 4)],
+             "2-tuple": [[str(i), str(i * i)] for i in (7, 3, 11, 0, 5, 9, 2, 10, 8, 1, 6, 4)]}
+    for dtype, vals in longs.items():
+        for n in (10, 12):
+            yield {"layer": "V", "spec": docs.simple_doc(P("p", vals[:n], dtype)),
+                   "tags": {"dtype": dtype, "atoms": [], "n_values": n}}
     if tier == "thorough":
         for combo in itertools.product(docs.CSV_SENSITIVE, repeat=3):
             yield {"layer": "V", "spec": docs.simple_doc(P("p", combo, "string")),
@@ -91,11 +99,11 @@ def layer_attrs(tier, lookalikes=False):
         spec["sections"][0]["properties"][0].update({"values": [1.5], "dtype": "float"})
         yield {"layer": "A", "spec": spec, "tags": {"element": "property", "attr": "uncertainty", "atoms": [repr(u)]}}
     # everything at once
-    spec = docs.doc_of([S("s", "typ", definition="sdef", reference="sref", repository="srepo",
+    spec = docs.doc_of([S("s", "typ", definition="sdef", reference="sref", repository="https://example.org/sec_terms.xml",
                           props=[P("p", [1.5, 2.5], "float", unit="mV", uncertainty=0.25, definition="pdef",
                                    reference="pref", dependency="other", dependency_value="1", value_origin="file.dat"),
                                  P("other", [1], "int")])],
-                       author="A. U. Thor", version="1.2", date={"date": "2020-01-02"}, repository="drepo")
+                       author="A. U. Thor", version="1.2", date={"date": "2020-01-02"}, repository="https://example.org/doc_terms.xml")
     yield {"layer": "A", "spec": spec, "tags": {"element": "all", "attr": "all", "atoms": []}}
 
 
@@ -279,6 +287,8 @@ def features(atom_reprs):
             continue
         if not isinstance(a, str):
             out.add(type(a).__name__)
+            if isinstance(a, float) and float("%e" % a) != a:
+                out.add("float-longer-than-7-digits")
             continue
         if a == "":
             out.add("empty")
